@@ -128,7 +128,7 @@ func (r *Reader) Meta() *indexmeta.Meta {
 func readHeaderSize(reader io.ReaderAt) (int64, error) {
 	// read header size:
 	headerSizeBuf := make([]byte, 4)
-	if _, err := reader.ReadAt(headerSizeBuf, 0); err != nil {
+	if err := readFullAt(reader, headerSizeBuf, 0); err != nil {
 		return 0, err
 	}
 	headerSize := int64(binary.LittleEndian.Uint32(headerSizeBuf))
@@ -149,7 +149,7 @@ func readHeader(reader io.ReaderAt) (*bucketToOffset, *indexmeta.Meta, int64, er
 	}
 	// read header bytes:
 	headerBuf := make([]byte, headerSize)
-	if _, err := reader.ReadAt(headerBuf, 4); err != nil {
+	if err := readFullAt(reader, headerBuf, 4); err != nil {
 		return nil, nil, 0, fmt.Errorf("failed to read header bytes: %w", err)
 	}
 	// decode header:
@@ -212,7 +212,7 @@ func (r *Reader) Has(sig [64]byte) (bool, error) {
 	}
 	// numHashes:
 	numHashesBuf := make([]byte, 4) // TODO: is uint32 enough? That's 4 billion hashes per bucket. RIght now an epoch can have 1 billion signatures.
-	_, err := r.contentReader.ReadAt(numHashesBuf, int64(offset))
+	err := readFullAt(r.contentReader, numHashesBuf, int64(offset))
 	if err != nil {
 		return false, err
 	}
@@ -256,9 +256,21 @@ var ErrNotFound = fmt.Errorf("not found")
 
 func readUint64Le(reader io.ReaderAt, pos int64) (uint64, error) {
 	buf := make([]byte, 8)
-	_, err := reader.ReadAt(buf, pos)
-	if err != nil {
+	if err := readFullAt(reader, buf, pos); err != nil {
 		return 0, err
 	}
 	return binary.LittleEndian.Uint64(buf), nil
+}
+
+// readFullAt fills buf from reader at off. io.ReaderAt allows an implementation to report io.EOF
+// together with a complete read that ends at the end of the input; that is not a failure.
+func readFullAt(reader io.ReaderAt, buf []byte, off int64) error {
+	n, err := reader.ReadAt(buf, off)
+	if n == len(buf) {
+		return nil
+	}
+	if err == nil {
+		err = io.ErrUnexpectedEOF
+	}
+	return err
 }
